@@ -4,6 +4,7 @@ import (
 	"flag"
 	"math/rand"
 	"strings"
+	"time"
 
 	"github.com/protobom/protobom/pkg/sbom"
 	"google.golang.org/protobuf/reflect/protoreflect"
@@ -235,6 +236,22 @@ func genEdgeListEq(r *rand.Rand, w *ndWriter, sid *int, n int) {
 			c.To = append(c.To, pick(r, ids))
 		}
 		emitEdgeEq(w, sid, a, c, "perturbed")
+	}
+	// nothing equals the absent value (and asking does not abort)
+	for kind, f := range map[string]func() bool{
+		"node":      func() bool { return (&sbom.Node{Id: "a"}).Equal(nil) },
+		"node-zero": func() bool { return (&sbom.Node{}).Equal(nil) },
+		"edge":      func() bool { return (&sbom.Edge{From: "a", To: []string{"b"}}).Equal(nil) },
+		"edge-zero": func() bool { return (&sbom.Edge{}).Equal(nil) },
+		"list": func() bool {
+			return randList(r, listOpts{ids: idPool(3), rich: 0.3, types: edgeTypes2, maxNodes: 3}).Equal(nil)
+		},
+		"list-zero": func() bool { return (&sbom.NodeList{}).Equal(nil) },
+	} {
+		*sid++
+		var eq bool
+		k, t := guarded(5*time.Second, func() { eq = f() })
+		w.write(map[string]any{"op": "NilEq", "sid": *sid, "kind": strings.TrimSuffix(kind, "-zero"), "case": kind, "o": outcome(k, t), "eq": eq})
 	}
 	emitEdgeEq(w, sid, &sbom.Edge{From: "a", To: []string{"b", "c"}}, &sbom.Edge{From: "a", To: []string{"b+c"}}, "attack")
 	emitEdgeEq(w, sid, &sbom.Edge{From: "a", Type: 5, To: []string{"b"}}, &sbom.Edge{From: "a:contains:b", Type: 5}, "attack")
